@@ -57,15 +57,16 @@ CHECKS["C02"] = {
 
 CHECKS["C04"] = {
     "level": "model_checking",
-    "engine": "HIST + STEP",
-    "technique": "exhaustive history enumeration plus exhaustive preemption-bounded interleaving enumeration of contending writers on the real Collection, checked against a sequential model (Wing-Gong search)",
+    "engine": "HIST + STEP + CRASH + THREAD",
+    "technique": "exhaustive history enumeration, exhaustive preemption-bounded interleaving enumeration of contending writers at await granularity (Collection) and at lock granularity (unique BTreeIndex, real OS threads under a controlled scheduler), exhaustive crash-prefix enumeration; all against a sequential model",
     "design_ref": "DESIGN.md 5/C04",
     "text": "hist: every history to depth 3 (quick) / 5 (thorough, as far as the budget allows) over 19 operations contending for one unique scalar value, one unique array element and one multi-field tuple (accepted writes, rejections by uniqueness / schema / unknown field / missing document, removals that release a value, flush, reopen): every rejected call must leave the complete observable state (documents + every index, C02 comparison) equal to the model's unchanged state, and the value must become insertable exactly when the model says so. step: every pair (preemption bound 2) and triple (bound 1; thorough 3/2 and quadruples at 1) of concurrent writers from a 10-operation contention alphabet, all interleavings of their backend-call steps; exactly the results and final state of some sequential order are accepted, so two winners, a leaked posting or a lost release are violations. crash: every crash prefix (and nested recovery prefix, and ambiguous failure) of every workload to depth 3 over a 10-operation contention alphabet: the recovered documents never share a unique name, a unique array element or the multi-field tuple, and the recovered indexes agree with them.",
-    "note": "Await-granularity schedules (single-threaded executor); lock-granularity interleavings inside the unique B-tree index itself are the thread part. Values drawn from a 2-3 value contested alphabet.",
+    "note": "thread: 19 templates of 2-3 OS threads on a UNIQUE BTreeIndex (two inserts of one value, insert vs remove, owner remove vs owner re-insert, release vs contender incl. full bucket and compaction, insert_array mixes), every interleaving of their lock-protected sections with <= 3 preemptions (thorough up to 6): returns and final contents (also after flush+load and compact+flush+load) equal some sequential order, at most one owner per value at every step. Await-granularity schedules for the Collection; lock-granularity for the index; weak-memory reorderings of Relaxed atomics are not modelled. Values drawn from a 2-3 value contested alphabet.",
     "parts": [
         {"part": "hist", "crate": "vdb", "bin": "c02_hist", "args": ["--property", "C04"], "budget_quick": 25, "budget_thorough": 1200},
         {"part": "step", "crate": "vdb", "bin": "c05_step", "args": ["--property", "C04"], "budget_quick": 15, "budget_thorough": 900},
         {"part": "crash", "crate": "vdb", "bin": "c01_crash", "args": ["--property", "C04"], "budget_quick": 15, "budget_thorough": 900},
+        {"part": "thread", "crate": "vthread", "bin": "c04_thread", "budget_quick": 15, "budget_thorough": 300},
     ],
 }
 
@@ -159,5 +160,74 @@ CHECKS["C13"] = {
         {"part": "derive", "crate": "vschema", "bin": "c13_derive", "budget_quick": 5, "budget_thorough": 60},
         {"part": "upgrade", "crate": "vschema", "bin": "c13_upgrade", "budget_quick": 8, "budget_thorough": 400},
         {"part": "collection", "crate": "vschema", "bin": "c13_collection", "budget_quick": 6, "budget_thorough": 200},
+    ],
+}
+
+CHECKS["C10"] = {
+    "level": "model_checking",
+    "engine": "HIST + CRASH + THREAD on the real BTreeIndex",
+    "technique": "explicit-state search over operation histories with state dedup against an ordered-multimap model; exhaustive flush crash-state enumeration (prefixes, bucket-put subsets, delete subsets, single write failures); exhaustive preemption-bounded interleavings of real OS threads at lock granularity",
+    "design_ref": "DESIGN.md 5/C10, 2.3",
+    "text": "hist: level-by-level search over histories of BTreeIndex<u64,String> and <u64,u64> with 64-byte buckets, unique and non-unique, 65 ops (insert/remove over 3 ids x 4 keys incl. one long key, insert_array/remove_array incl. duplicate and empty arrays, batch_update, compact_buckets, flush, flush+load_all), quick depth 4 on a 45-op alphabet / 3 on all 65 / 8 on a focused bucket-migration alphabet, plus starts from fabricated legacy manifest-less layouts; after each history return values and uniqueness errors vs BTreeMap<K,BTreeSet<u64>>, a query battery, then flush + load_all + the same battery; per distinct model state the deep battery: keys(cursor,limit) for all cursors x limits, prefix queries with every stop position, every RangeQuery tree (depth 2 quick / 3 thorough) in both directions with the callback stopping at every position. crash: for the flush of every kept state (first, incremental, after compaction, after load, legacy) every linear prefix of bucket puts -> manifest put -> obsolete deletes, every subset of the bucket puts without the commit, commit + every subset of the deletes: load_all equals the last committed or the interrupted model as a whole; 5 follow-up ops from each crash state; every write position failed once and the flush retried. thread: 2-3 OS threads x 1-2 ops (insert, remove, insert_array, compact_buckets) on overlapping keys and shared tiny buckets, every interleaving with <= 3 preemptions (thorough to 6): returns and contents (after flush+load) equal some sequential order, nothing lost or duplicated, no deadlock.",
+    "note": "Object puts/deletes atomic. Dedup key = (model, committed model, public flags, canonical durable objects); in-memory bucket size estimates are not in it. Yield points sit before every lock acquisition of the mutators (cfg verif); sequential consistency assumed (Relaxed atomics not reordered).",
+    "parts": [
+        {"part": "hist", "crate": "vindex", "bin": "c10_hist", "budget_quick": 25, "budget_thorough": 600},
+        {"part": "crash", "crate": "vindex", "bin": "c10_crash", "budget_quick": 18, "budget_thorough": 420},
+        {"part": "thread", "crate": "vthread", "bin": "c10_thread", "budget_quick": 15, "budget_thorough": 300},
+    ],
+}
+
+CHECKS["C11"] = {
+    "level": "model_checking",
+    "engine": "HIST + CRASH + THREAD on the real BM25Index",
+    "technique": "explicit-state search over operation histories with state dedup against a naive inverted index built with the same tokenizer; exhaustive flush crash-state enumeration; exhaustive preemption-bounded interleavings of real OS threads at lock granularity",
+    "design_ref": "DESIGN.md 5/C11, 2.3",
+    "text": "hist: 49 ops on BM25Index (insert ids 1-4 x 6 texts incl. repeats, re-insert, AlreadyExists, tokenizer failure, remove with original and with non-original text, purge_ids, compact, flush, flush+load) with 32-byte buckets (thorough also 20 B and the default), quick depth 4 on 30 ops / 3 on 49; after each history counters (len, per-id token count, average length bit-exact), every term search and boolean shapes; per distinct model state: all boolean trees to depth 2 (thorough 3) via try_search_advanced, identical repeat, top-k is a prefix of top-(k+1) for k in 0..n+1, 12 BM25 parameter sets incl. NaN, +-inf, negative, f32::MAX: id sets equal the model's set algebra, scores finite and >= 0, order (score desc, id asc). crash: every prefix / subset crash state and every single write failure of every reachable flush loads as exactly the last commit or the interrupted flush. thread: insert / remove / purge_ids / compact_buckets on shared terms and tiny buckets, 2-3 threads, every interleaving with <= 3 preemptions (thorough to 5): returns, search results, counters and the flush+load image equal some sequential order.",
+    "note": "Documents of 1-3 tokens over a 4-word vocabulary plus one fixed 4-word scenario. Score VALUES are not compared (only finite, >= 0, ordered). Five recorded findings (stale posting after remove with non-original text + re-insert; multi-word score sum in random HashMap order; three same-id concurrency shapes at index level); one repaired (purge_ids unlist TOCTOU).",
+    "parts": [
+        {"part": "hist", "crate": "vindex", "bin": "c11_hist", "budget_quick": 25, "budget_thorough": 600},
+        {"part": "crash", "crate": "vindex", "bin": "c11_crash", "budget_quick": 18, "budget_thorough": 420},
+        {"part": "thread", "crate": "vthread", "bin": "c11_thread", "budget_quick": 15, "budget_thorough": 300},
+    ],
+}
+
+CHECKS["C14"] = {
+    "level": "model_checking",
+    "engine": "HIST (BFS over control-plane histories) + SCOPE (complete request matrix per state)",
+    "technique": "breadth-first explicit-state search over control-plane event histories of the real server (merged by canonical control state), with the complete route x method x principal x encoding x target request matrix evaluated at every state through the real router over a journalling store",
+    "design_ref": "DESIGN.md 5/C14",
+    "text": "hist: BFS over {create A/B with or without key, set_api_key, remove_api_key, close, open, connect, restart} from three roots (admin key; loopback; admin + A(key) + B(key)) to depth 2 (quick) / 8 (thorough, exhaustive: 1,213 states); at every state the full matrix: GET /, POST /, POST to 11 target spellings (A, B, percent-encoded, with query string, missing, primary, bad name, encoded slash, path-only) x every method of both dispatch tables (scraped from api/mod.rs at build time and cross-checked) + 3 unknown names x minimal/malformed params + 6 body probes x CBOR/JSON x principals {none, garbage, malformed header, admin, every issued or revoked token, an unissued one, the hash of the bound key}, each state replayed in four worlds (rejected cells; key holder on its own db; a twin world where only the other database differs; admin): every rejected response is byte-identical to the same caller's request for a nonexistent database, is 401/403 and causes no store call (never 400/404/413/415 first); the key holder's store calls stay under its prefix; no response contains the other database's name, data, tokens, hashes or instance state; answers are byte-identical in the twin world; an admin dump of the other database and server state is unchanged by every mutating cell. reads: every Read-classified method x 12 lifecycle states x {admin, key holder} x {CBOR, JSON} on a fresh server with the method as the first request touching the database: zero journalled mutations.",
+    "note": "One request at a time (no concurrent key rotation); observable = status, headers, body, store journal - no timing. Effect labels come from the source text of the parse tables. Recorded finding: in the lifecycle state 'cold collection with crash residue' the first Read-classified request runs recovery and flushes (11 method signatures).",
+    "parts": [
+        {"part": "hist", "crate": "vserver", "bin": "c14_hist", "budget_quick": 30, "budget_thorough": 1200},
+        {"part": "reads", "crate": "vserver", "bin": "c14_reads", "budget_quick": 8, "budget_thorough": 300},
+    ],
+}
+
+CHECKS["C15"] = {
+    "level": "exploration",
+    "engine": "SCOPE (all strings over an alphabet; grammar-derived sentences; single-token mutants; metamorphic variants)",
+    "technique": "bounded-exhaustive input enumeration against the real parsers in supervised child processes (256 KiB stack, 5 s watchdog): every string over an 18-symbol alphabet to length 5/6, every grammar sentence to derivation depth 3/4 with every single-token mutant and metamorphic variant, nesting and length limit probes",
+    "design_ref": "DESIGN.md 5/C15",
+    "text": "sigma: every string over the 18-symbol alphabet up to length 5 (2.0 M strings; thorough 6 = 36 M) through parse_kip/kql/kml/meta/json. limits: nesting towers at total depth 63, 64, 65, 200, 10^4 (thorough to 10^5) for each bracket kind raw, inside strings and inside comments, 16 nesting constructs, 9 lexical tricks against the bracket pre-scan, 7 bracket-free operator towers, 14 paddings at MAX-1/MAX/MAX+1 bytes: over-limit (by an independent count) is refused with ResourceExhausted by all five entry points, brackets in strings/comments leave the command unchanged. grammar: an each-choice walk of the KIPSyntax.md grammar (7,906 sentences quick, 12,114 thorough, all accepted) x metamorphic variants (compact rendering, trivia at every token gap incl. comments holding quotes and brackets, every keyword in other casings) that must give an equal AST x every single-token mutant (delete, duplicate, swap, truncate, splice of foreign tokens): no panic / overflow / >5 s parse; parse_kip agrees with the three specific parsers; accepted => validate_command ok, re-parses identically, trailing garbage refused, serde_json round trip equal.",
+    "note": "Inputs beyond the alphabet/length and derivation depth are not claimed; each-choice coverage of grammar alternatives rather than the full product. Recorded finding: accepted trees nested deeper than ~41/59 do not survive a JSON decode.",
+    "parts": [
+        {"part": "sigma", "crate": "vkip", "bin": "c15_sigma", "budget_quick": 14, "budget_thorough": 600},
+        {"part": "limits", "crate": "vkip", "bin": "c15_limits", "budget_quick": 8, "budget_thorough": 120},
+        {"part": "grammar", "crate": "vkip", "bin": "c15_grammar", "budget_quick": 20, "budget_thorough": 900},
+    ],
+}
+
+CHECKS["C16"] = {
+    "level": "exploration",
+    "engine": "SCOPE (complete clause x target x block x field x spelling matrix; JSON tree injection; grammar corpus) + independent AST walker",
+    "technique": "complete enumeration of the clause/target/block/field/spelling matrix and of single-node edits of accepted trees, each accepted command inspected by an independent walker over anda_kip::Command that re-states the forbidden shapes from the specification",
+    "design_ref": "DESIGN.md 5/C16",
+    "text": "matrix: 29 clause contexts (incl. UPDATE ?t under 21 target bindings, also inside MUTATE) x 9 blocks x 26 field names (protected, immutable-payload, ordinary) x 7 spellings x 3 positions x 2 values, BELIEF targets (6 forms x 6 positions x 11 statements), 20 MATCH shapes, 15 bare-id creations, plans of 1-3 clauses (16 templates x 13 handle graphs: unbound, doubly bound, forward, cyclic), ASSERT with every member subset against an expansion model of spec 55.1: 221 k texts, 166 k accepted trees walked (thorough 792 k). inject: every JSON node of accepted seed trees edited (about 60 forbidden elements pushed into every array, strings/nulls replaced, tagged values swapped for unbound references, members deleted/renamed) -> serde -> validate_command -> walker (414 k edits quick, 5.3 M thorough). corpus: the walker over every accepted KML/EXPORT sentence and single-token mutant of the C15 grammar corpus. The walker uses exhaustive matches over MutationClause/UpdateAction/WhereClause/MetaCommand (a new variant fails the build) and calls no guard function of the repository.",
+    "note": "The forbidden shapes are the walker's restatement of SPECIFICATION.md; a direct :id / \"id\" target has no kind visible in the text, so payload rewrite there is statically undecidable and not flagged. Two recorded findings (UPDATE payload guard uses the first binding: UNION branch / decoy binding); one repaired (unbound ENSURE endpoint handle).",
+    "parts": [
+        {"part": "matrix", "crate": "vkip", "bin": "c16_matrix", "budget_quick": 15, "budget_thorough": 300},
+        {"part": "inject", "crate": "vkip", "bin": "c16_inject", "budget_quick": 8, "budget_thorough": 200},
+        {"part": "corpus", "crate": "vkip", "bin": "c16_corpus", "budget_quick": 15, "budget_thorough": 600},
     ],
 }
